@@ -1048,6 +1048,13 @@ class IdxMin(Reduction):
     reduction_aggregate = idxmaxmin_agg
     _reduction_attribute = "idxmin"
 
+    @functools.cached_property
+    def _meta_chunk(self):
+        # skipna has no influence on the metadata, but skipna=False raises
+        # (pandas>=3) for the NA that meta_nonempty puts into nullable columns
+        meta = meta_nonempty(self.frame._meta)
+        return self.chunk(meta, **{**self.chunk_kwargs, "skipna": True})
+
     @property
     def chunk_kwargs(self):
         return dict(
